@@ -318,6 +318,19 @@ func (s *Scope) Eval(e Expr) Term {
 					}
 					unsupported("unknown qualified name %s.%s", id.Name, e.Name)
 				}
+				// constant of an imported library package
+				if cur := x.P.ByName[s.pkg]; cur != nil {
+					for _, imp := range cur.Imports {
+						if imp.Name == id.Name && imp.Types != nil {
+							if c, ok := imp.Types.Scope().Lookup(e.Name).(*types.Const); ok {
+								if t, ok := ConstTerm(w, c.Val(), w.SortOf(c.Type())); ok {
+									t.GoT = c.Type()
+									return t
+								}
+							}
+						}
+					}
+				}
 			}
 		}
 		b := s.Eval(e.X)
@@ -329,6 +342,11 @@ func (s *Scope) Eval(e Expr) Term {
 		}
 		if r, ok := w.Field(b, e.Name); ok {
 			return r
+		}
+		if strings.HasPrefix(string(b.Sort), "U_") {
+			if r, ok := x.opaqueField(b, e.Name); ok {
+				return r
+			}
 		}
 		unsupported("no field %s on %s", e.Name, b.Sort)
 	case ECall:
@@ -554,6 +572,54 @@ func (s *Scope) evalCall(e ECall) Term {
 			}
 		}
 	}
+	// method written as a function of its receiver: Name(recv, args...) when exactly one method has this name
+	{
+		var cands []*FuncInfo
+		for k, fi := range x.P.Funcs {
+			if strings.HasPrefix(k, fpkg+".(") && strings.HasSuffix(k, ")."+fname) {
+				cands = append(cands, fi)
+			}
+		}
+		if len(cands) == 1 {
+			fi := cands[0]
+			as := args()
+			if fc := x.P.Contracts.Funcs[fi.Key]; fc != nil && fc.Flags["pure"] && len(as) > 0 {
+				return x.pureUF(fi, as[0], as[1:])
+			}
+			tf := x.termFunOf(fi)
+			if tf != nil && tf.ok {
+				sig := fi.Obj.Type().(*types.Signature)
+				rt := sig.Results().At(0).Type()
+				r := T(app(tf.names[0], as...), w.SortOf(rt))
+				r.GoT = rt
+				return r
+			}
+		}
+	}
+	if purePkgs[fpkg] {
+		// library function as the same uninterpreted function the code's calls use
+		as := args()
+		var sorts []Sort
+		for _, a := range as {
+			sorts = append(sorts, a.Sort)
+		}
+		uf := fmt.Sprintf("uf_%s$0", sanitize(fpkg+"."+fname))
+		for _, so := range sorts {
+			uf += "_" + sanitize(string(so))
+		}
+		rs := SBool
+		if cur := x.P.ByName[s.pkg]; cur != nil {
+			for _, imp := range cur.Imports {
+				if imp.Name == fpkg && imp.Types != nil {
+					if fo, ok := imp.Types.Scope().Lookup(fname).(*types.Func); ok {
+						rs = w.SortOf(fo.Type().(*types.Signature).Results().At(0).Type())
+					}
+				}
+			}
+		}
+		w.DeclareFun(uf, sorts, rs)
+		return T(app(uf, as...), rs)
+	}
 	if strings.HasPrefix(fname, "fv_") {
 		// function-valued parameter modelled as an uninterpreted predicate (same symbol as at its call sites)
 		as := args()
@@ -661,6 +727,7 @@ func (x *Exec) pureUF(fi *FuncInfo, recv Term, args []Term) Term {
 	var as []Term
 	var sorts []Sort
 	if sig.Recv() != nil {
+		recv = x.eraseNoRead(fi, recv)
 		as = append(as, recv)
 		sorts = append(sorts, x.W.SortOf(sig.Recv().Type()))
 	}
@@ -680,4 +747,76 @@ func (x *Exec) pureUF(fi *FuncInfo, recv Term, args []Term) Term {
 	}
 	r.GoT = rt
 	return r
+}
+
+// eraseNoRead normalises the receiver of a pure function: fields it provably never reads (noread) and declared
+// caches are replaced by their zero value, so that the result is visibly independent of them.
+func (x *Exec) eraseNoRead(fi *FuncInfo, recv Term) Term {
+	fc := x.P.Contracts.Funcs[fi.Key]
+	if fc == nil || recv.S == "" {
+		return recv
+	}
+	d := x.W.datas[recv.Sort]
+	if d == nil {
+		return recv
+	}
+	for _, f := range append(append([]string{}, fc.NoRead...), fc.Cache...) {
+		for _, df := range d.Fields {
+			if df.Name == f {
+				var z Term
+				if df.GoT != nil {
+					z = x.zero(df.GoT)
+				}
+				if z.Sort != df.Sort {
+					z = x.opaqueZero(df.Sort, df.GoT)
+				}
+				if nv, ok := x.W.WithField(recv, f, z); ok {
+					nv.GoT = recv.GoT
+					recv = nv
+				}
+			}
+		}
+	}
+	return recv
+}
+
+// opaqueField: deterministic read of a field of an unmodelled (library) struct value.
+func (x *Exec) opaqueField(b Term, name string) (Term, bool) {
+	st, ok := typeUnder(derefT(b.GoT)).(*types.Struct)
+	if !ok {
+		return Term{}, false
+	}
+	get := func(f *types.Var) Term {
+		fn := "fld_" + sanitize(string(b.Sort)) + "_" + f.Name()
+		so := x.W.SortOf(f.Type())
+		x.W.DeclareFun(fn, []Sort{b.Sort}, so)
+		r := T("("+fn+" "+b.S+")", so)
+		r.GoT = f.Type()
+		return r
+	}
+	for i := 0; i < st.NumFields(); i++ {
+		if f := st.Field(i); f.Name() == name {
+			return get(f), true
+		}
+	}
+	// promoted through embedded structs
+	for i := 0; i < st.NumFields(); i++ {
+		f := st.Field(i)
+		if !f.Embedded() {
+			continue
+		}
+		if _, ok := derefType(f.Type()).Underlying().(*types.Struct); ok {
+			inner := get(f)
+			if strings.HasPrefix(string(inner.Sort), "U_") {
+				if r, ok := x.opaqueField(inner, name); ok {
+					return r, true
+				}
+			} else if est, ok := derefType(f.Type()).Underlying().(*types.Struct); ok {
+				if r, ok := x.fieldByName(inner, est, name); ok {
+					return r, true
+				}
+			}
+		}
+	}
+	return Term{}, false
 }
